@@ -358,6 +358,9 @@ def run_check(prop, tier, layers, level_text='', assumptions=(), cap_s=None,
 
 def write_evidence(prop, ev):
     d = os.path.join(VERIF, 'evidence')
+    if os.path.realpath(os.environ.get('VERIF_REPO', '/repo')) != '/repo':
+        # a run against a scratch tree (mutant / seeded change) must not overwrite the evidence of /repo
+        d = os.environ.get('VERIF_SCRATCH_EVIDENCE', '/tmp/verif_scratch_evidence')
     os.makedirs(d, exist_ok=True)
     path = os.path.join(d, prop + '.json')
     with open(path, 'w') as f:
